@@ -179,6 +179,43 @@ pub fn cloned_signal_list_part(deadline: &Deadline) -> Stats {
     })
 }
 
+/// Another use of the public `signals` field: further pins are pushed onto the list of a loaded
+/// test (a caller that keeps all pins of the circuit there). The rows do not change.
+pub fn pushed_signal_part(deadline: &Deadline) -> Stats {
+    use crate::driver::Step;
+    use crate::props::util::*;
+    let texts = [
+        "A Q V\ndeclare V = Q + 1;\nlet Q = 9;\n1 X X\n2 1 3\nloop(R,2)\n(R) X X\nend loop\n",
+        "A V\nlet R = 5;\ndeclare V = Q * 2 + R;\n1 X\nC 7\n",
+        "A Q\ndeclare W = ite(R, Q, 7);\nloop(Q,2)\nlet R = 0;\n(Q) X\nend loop\n",
+    ];
+    let sigs = sigs();
+    let extras: Vec<Vec<Sig>> = vec![vec![Sig::out("Zx", 4)], vec![Sig::inp("Zi", 4, 1)], vec![Sig::out("Q_out", 4), Sig::inp("V", 4, 0)], vec![Sig::bidir("Zb", 4, V::Z), Sig::out("Zx", 1)]];
+    par_range("pins pushed onto the signals field of a loaded test: 3 programs with shadowing variables x 4 pushed lists x 4 answers", (texts.len() * extras.len() * 4) as u64, deadline, |u, st| {
+        let d = digits(u, &[4, extras.len() as u64, texts.len() as u64]);
+        let text = texts[d[2]];
+        let Ok(plain) = load(text, &sigs, DEFAULT_BUDGET) else { return };
+        let mut pushed = plain.clone();
+        for e in &extras[d[1]] {
+            pushed.signals.push(e.to_real());
+        }
+        let ans: Answer = [vec![("Q", V::Num(2)), ("R", V::Num(1))], vec![("Q", V::Num(0)), ("R", V::Num(0))], vec![("R", V::Num(3)), ("Q", V::Num(5))], vec![("Q", V::Z), ("R", V::Num(1))]][d[0]].iter().map(|(n, v)| (n.to_string(), *v)).collect();
+        let script = vec![Step::Ans(ans)];
+        let mut opts = RunOpts::new(14);
+        opts.repeat_last = true;
+        opts.continue_after_error = true;
+        let a = run_loaded(&plain, &sigs, true, &script, &opts);
+        let b = run_loaded(&pushed, &sigs, true, &script, &opts);
+        st.evals += 1;
+        st.nontrivial += 1;
+        st.witness("pins_pushed_onto_the_signals_field_of_a_loaded_test");
+        if a.items != b.items || a.init != b.init {
+            let k = a.items.iter().zip(b.items.iter()).position(|(x, y)| x != y).unwrap_or(0);
+            st.violation("rows change when further pins are pushed onto the signals field of a loaded test", u, format!("program:\n{text}pushed: {}\nitem {k} without the push: {}\nitem {k} with the push: {}", extras[d[1]].iter().map(|s| s.show()).collect::<Vec<_>>().join(", "), a.items.get(k).map(|i| i.brief()).unwrap_or_default(), b.items.get(k).map(|i| i.brief()).unwrap_or_default()), || dyn_replay(text, &sigs, true, &script, &opts, obs_items_brief(&a), &b, "differs from the test without the pushed pins"));
+        }
+    })
+}
+
 pub fn run(tier: Tier, seed: u64) -> i32 {
     let started = Instant::now();
     let deadline = Deadline::new(tier.wall_cap());
@@ -383,6 +420,10 @@ pub fn run(tier: Tier, seed: u64) -> i32 {
     } else {
         vec![]
     };
+    // the small shared parts first (they take a second; the exploration below may use the whole wall cap)
+    let mut parts = crate::props::c13::api_use_part(&deadline);
+    parts.merge(cloned_signal_list_part(&deadline));
+    parts.merge(pushed_signal_part(&deadline));
     let ncases = cases.len();
     let nshadow = cases.iter().filter(|c| c.name.contains("shadow 1") || c.name.contains("shadow 2") || c.name.contains("shadow 4")).count();
     let res = explore(cases, oracle(), true, &deadline);
@@ -400,11 +441,10 @@ pub fn run(tier: Tier, seed: u64) -> i32 {
         assumptions: vec![
             "reference interpreter evaluates each declaration over the answer of the same call with no variables visible; virtual entries are matched by name (their mutual order is C15's)".into(),
         ],
-        required_witnesses: vec!["row_with_virtual_signal", "virtual_signal_with_expected_column", "virtual_signal_over_Z_or_X_is_an_error_item", "c_expansion", "program_with_variable_named_like_an_output", "row_with_an_answer_of_the_wrong_length", "signal_list_cloned_from_a_loaded_test"],
+        required_witnesses: vec!["row_with_virtual_signal", "virtual_signal_with_expected_column", "virtual_signal_over_Z_or_X_is_an_error_item", "c_expansion", "program_with_variable_named_like_an_output", "row_with_an_answer_of_the_wrong_length", "signal_list_cloned_from_a_loaded_test", "pins_pushed_onto_the_signals_field_of_a_loaded_test"],
         exhaustive_note: "every reachable state for every case".into(),
         e1: true,
     };
-    st.merge(crate::props::c13::api_use_part(&deadline));
-    st.merge(cloned_signal_list_part(&deadline));
+    st.merge(parts);
     finish(meta, st, started)
 }
